@@ -1483,6 +1483,24 @@ package connect
 //@   assert@call(connectContentTypeFromCodecName#1): arg0 == streamType && arg1 == callres("Codec.Name", 1)   // label: content-type-built-from-the-stream-type-and-the-codec's-name   // tags: C05, C12
 
 //@ constfield protocolClientParams.CompressionPools, protocolClientParams.Codec, protocolClientParams.BufferPool, protocolClientParams.HTTPClient, protocolClientParams.Protobuf, protocolClientParams.ReadMaxBytes, protocolClientParams.CompressMinBytes, protocolClientParams.CompressionName, protocolClientParams.URL
+// The request goes out on the first Write or CloseWrite; what the headers say
+// about the deadline is settled then (C10: never longer than the time remaining
+// when the timeout is sent), by the hook the protocol client registered.
+//@ trusted func field:duplexHTTPCall.onRequestSend(header)
+//@   assigns mapof(header), mapvals(header)
+//@   doc: "the hook registered with SetOnRequestSend: both protocol clients register a closure under contract (NewConn$1)"
+//@ func (*duplexHTTPCall).SetOnRequestSend(d, onRequestSend)
+//@   tags C10
+//@   requires d != nil
+//@   assigns d.onRequestSend
+//@   ensures d.onRequestSend == onRequestSend
+//@ func (*duplexHTTPCall).ensureRequestMade$1()
+//@   tags C10
+//@   requires deref(d) != nil && deref(d).request != nil && deref(d).request.Header != nil
+//@   assigns mapof(deref(d).request.Header), mapvals(deref(d).request.Header)
+//@   assert@call(field:duplexHTTPCall.onRequestSend#1): arg0 == deref(d).request.Header   // label: the-send-hook-sees-the-headers-of-the-request-that-goes-out
+//@   assert@call(go (*duplexHTTPCall).makeRequest): deref(d).onRequestSend != nil ==> called("field:duplexHTTPCall.onRequestSend", 1)   // label: the-send-hook-has-run-when-the-request-goes-out
+//@   ensures called("go (*duplexHTTPCall).makeRequest", 1)   // label: the-request-goes-out
 //@ func (*duplexHTTPCall).SetValidateResponse(d, validate)
 //@   tags C09, C08, C01, C10
 //@   requires d != nil
@@ -1495,9 +1513,25 @@ package connect
 //@   assert@call(readOnlyCompressionPools.Get#1): arg1 == c.protocolClientParams.CompressionName
 //@   assert@call(readOnlyCompressionPools.Get#2): arg1 == c.protocolClientParams.CompressionName
 //@   assigns everything
-//@   assert@call(newDuplexHTTPCall#1): !callresb("context.Context.Deadline", 1, 1) ==> !hdom(header, "Connect-Timeout-Ms")   // label: no-deadline-no-timeout-header
-//@   assert@call(newDuplexHTTPCall#1): callresb("context.Context.Deadline", 1, 1) && callres("time.Until", 1) > 0 && callres("time.Until", 1) / 1000000 < 10000000000 ==> hdom(header, "Connect-Timeout-Ms") && hraw(header, "Connect-Timeout-Ms") == [dec(callres("time.Until", 1) / 1000000)]   // label: timeout-is-the-remaining-time-in-whole-milliseconds
-//@   assert@call(newDuplexHTTPCall#1): callresb("context.Context.Deadline", 1, 1) && callres("time.Until", 1) / 1000000 >= 10000000000 ==> !hdom(header, "Connect-Timeout-Ms")   // label: too-large-a-timeout-is-omitted-not-truncated
+//@   assert@call(connectSetRequestTimeout#1): arg0 == ctx && arg1 == header   // label: the-timeout-header-is-there-from-the-start
+//@   assert@call(newDuplexHTTPCall#1): arg0 == ctx && arg4 == header   // label: the-call-runs-under-this-context-with-these-headers
+//@   assert@call((*duplexHTTPCall).SetOnRequestSend#1): arg0 == callres("newDuplexHTTPCall", 1)   // label: the-send-hook-is-this-call's
+//@   ensures called("(*duplexHTTPCall).SetOnRequestSend", 1)   // label: the-timeout-is-computed-again-when-the-request-is-sent   // tags: C10
+//@ func (*connectClient).NewConn$1(header)
+//@   tags C10
+//@   requires header != nil
+//@   requires deref(ctx) != nil
+//@   assigns mapof(header), mapvals(header)
+//@   assert@call(connectSetRequestTimeout#1): arg0 == ctx && arg1 == header   // label: the-send-hook-writes-the-timeout-of-this-call's-context-into-the-headers-it-is-given
+//@   ensures called("connectSetRequestTimeout", 1)   // label: the-send-hook-writes-the-timeout
+//@ func connectSetRequestTimeout(ctx, header)
+//@   tags C10
+//@   requires ctx != nil && header != nil
+//@   assigns mapof(header), mapvals(header)
+//@   ensures !callresb("context.Context.Deadline", 1, 1) ==> !hdom(header, "Connect-Timeout-Ms")   // label: no-deadline-no-timeout-header
+//@   ensures callresb("context.Context.Deadline", 1, 1) && callres("time.Until", 1) > 0 && callres("time.Until", 1) / 1000000 < 10000000000 ==> hdom(header, "Connect-Timeout-Ms") && hraw(header, "Connect-Timeout-Ms") == [dec(callres("time.Until", 1) / 1000000)]   // label: timeout-is-the-remaining-time-in-whole-milliseconds
+//@   ensures callresb("context.Context.Deadline", 1, 1) && callres("time.Until", 1) / 1000000 >= 10000000000 ==> !hdom(header, "Connect-Timeout-Ms")   // label: too-large-a-timeout-is-omitted-not-truncated
+//@   ensures forall k seq :: {mapdom(header, k)} {mapval(header, k)} k != "Connect-Timeout-Ms" ==> mapdom(header, k) == old(mapdom(header, k)) && mapval(header, k) == old(mapval(header, k))   // label: no-other-header-is-touched
 
 //@ func (*grpcClient).NewConn(g, ctx, spec, header) res
 //@   tags C10, C09, C08, C01, C06
@@ -1505,8 +1539,24 @@ package connect
 //@   assert@call(wrapClientConnWithCodedErrors#1): typeis(arg0, "*grpcClientConn") && (let t := cast(arg0, "*grpcClientConn") in t.unmarshaler.envelopeReader.readMaxBytes == g.protocolClientParams.ReadMaxBytes && t.unmarshaler.envelopeReader.codec == g.protocolClientParams.Codec && t.unmarshaler.envelopeReader.reader == t.duplexCall && t.unmarshaler.web == g.web && t.marshaler.envelopeWriter.writer == t.duplexCall && t.marshaler.envelopeWriter.codec == g.protocolClientParams.Codec && t.marshaler.envelopeWriter.compressMinBytes == g.protocolClientParams.CompressMinBytes && t.marshaler.envelopeWriter.compressionPool == callres("readOnlyCompressionPools.Get", 1) && t.compressionPools == g.protocolClientParams.CompressionPools && t.protobuf == g.protocolClientParams.Protobuf && t.bufferPool == g.protocolClientParams.BufferPool && t.bufferPool != nil && t.marshaler.envelopeWriter.bufferPool == t.bufferPool && t.unmarshaler.envelopeReader.bufferPool == t.bufferPool)   // label: conn-carries-the-client's-codec-limit-threshold-and-compression   // tags: C09, C08, C01, C06
 //@   assert@call(readOnlyCompressionPools.Get#1): arg1 == g.protocolClientParams.CompressionName
 //@   assigns everything
-//@   assert@call(newDuplexHTTPCall#1): !callresb("context.Context.Deadline", 1, 1) ==> !hdom(header, "Grpc-Timeout")   // label: no-deadline-no-timeout-header
-//@   assert@call(newDuplexHTTPCall#1): callresb("context.Context.Deadline", 1, 1) && callres("time.Until", 1) > 0 ==> hdom(header, "Grpc-Timeout") && hraw(header, "Grpc-Timeout") == [callres("grpcEncodeTimeout", 1, 0)] && gramT(callres("grpcEncodeTimeout", 1, 0)) && durT(callres("grpcEncodeTimeout", 1, 0)) <= callres("time.Until", 1)   // label: timeout-is-the-encoded-remaining-time
+//@   assert@call(grpcSetRequestTimeout#1): arg0 == ctx && arg1 == header   // label: the-timeout-header-is-there-from-the-start
+//@   assert@call(newDuplexHTTPCall#1): arg0 == ctx && arg4 == header   // label: the-call-runs-under-this-context-with-these-headers
+//@   assert@call((*duplexHTTPCall).SetOnRequestSend#1): arg0 == callres("newDuplexHTTPCall", 1)   // label: the-send-hook-is-this-call's
+//@   ensures called("(*duplexHTTPCall).SetOnRequestSend", 1)   // label: the-timeout-is-computed-again-when-the-request-is-sent   // tags: C10
+//@ func (*grpcClient).NewConn$1(header)
+//@   tags C10
+//@   requires header != nil
+//@   requires deref(ctx) != nil
+//@   assigns mapof(header), mapvals(header)
+//@   assert@call(grpcSetRequestTimeout#1): arg0 == ctx && arg1 == header   // label: the-send-hook-writes-the-timeout-of-this-call's-context-into-the-headers-it-is-given
+//@   ensures called("grpcSetRequestTimeout", 1)   // label: the-send-hook-writes-the-timeout
+//@ func grpcSetRequestTimeout(ctx, header)
+//@   tags C10
+//@   requires ctx != nil && header != nil
+//@   assigns mapof(header), mapvals(header)
+//@   ensures !callresb("context.Context.Deadline", 1, 1) ==> !hdom(header, "Grpc-Timeout")   // label: no-deadline-no-timeout-header
+//@   ensures callresb("context.Context.Deadline", 1, 1) && callres("time.Until", 1) > 0 ==> hdom(header, "Grpc-Timeout") && hraw(header, "Grpc-Timeout") == [callres("grpcEncodeTimeout", 1, 0)] && gramT(callres("grpcEncodeTimeout", 1, 0)) && durT(callres("grpcEncodeTimeout", 1, 0)) <= callres("time.Until", 1)   // label: timeout-is-the-encoded-remaining-time
+//@   ensures forall k seq :: {mapdom(header, k)} {mapval(header, k)} k != "Grpc-Timeout" ==> mapdom(header, k) == old(mapdom(header, k)) && mapval(header, k) == old(mapval(header, k))   // label: no-other-header-is-touched
 
 // ---------------------------------------------------------------------------
 // protocol_grpc.go: client side (C04: grpc-status is the terminator)
